@@ -13,6 +13,8 @@ structure St where
   live : Option State := none          -- none: dead (panicked) or not reset yet
   shadow : Option State := none
   last : List Action := []
+  /-- TaskIndex handed out by the live machine ↦ the one the shadow handed out for the same votePresent -/
+  idxMap : List (Nat × Nat) := []
 
 def insertNat {α : Type} (key : α → Nat) (a : α) : List α → List α
   | [] => [a]
@@ -155,21 +157,30 @@ def step (s : St) (line : String) : St × String :=
     match s.live with
     | none => (s, "DEAD")
     | some σ => (s, dumpStr σ)
-  | ["persist", _variant] =>
+  | ["persist", _variant, mode] =>
     match s.live with
     | none => (s, "DEAD")
     | some σ =>
       let v := persistView σ
-      ({ s with shadow := some v }, s!"A[{actsStr s.last}] {dumpStr v}")
+      ({ s with shadow := some v, idxMap := [] }, s!"A[{actsStr (if mode == "noact" then [] else s.last)}] {dumpStr v}")
   | fs =>
     match parseEvent fs with
     | none => (s, "bad-op")
     | some ev =>
       let (l', out, as) := runOne s.P s.live ev
+      -- every ensure action of the model satisfies C03 (Props.C03.ensure_cert_valid): the harness prints its own verdict
+      let c03 := String.join ((as.filter (fun a => match a with | .ensure _ _ => true | _ => false)).map (fun _ => " ## c03=ok"))
       match s.shadow with
-      | none => ({ s with live := l', last := as }, out ++ " || -")
+      | none => ({ s with live := l', last := as }, out ++ " || -" ++ c03)
       | some sh =>
-        let (sh', out2, _) := runOne s.P (some sh) ev
-        ({ s with live := l', last := as, shadow := sh' }, out ++ " || " ++ out2)
+        let ev2 := match ev with
+          | .pvote true bad v idx tail => Event.pvote true bad v ((aget s.idxMap idx).getD idx) tail
+          | e => e
+        let (sh', out2, as2) := runOne s.P (some sh) ev2
+        let taskIdx (l : List Action) : Option Nat := l.findSome? (fun a => match a with | .verifyVote _ _ i => some i | _ => none)
+        let m := match ev, taskIdx as, taskIdx as2 with
+          | .pvote false _ _ _ _, some i1, some i2 => aset s.idxMap i1 i2
+          | _, _, _ => s.idxMap
+        ({ s with live := l', last := as, shadow := sh', idxMap := m }, out ++ " || " ++ out2 ++ c03)
 
 end AlgoVerif.Driver.Player
